@@ -90,14 +90,14 @@ Proof.
   - apply (nodup_filter _ _ H).
 Qed.
 
-Definition gc_bucket (now : Z) (s : option bucket) : option bucket :=
-  match s with Some b => if lim_expired now b then None else Some b | None => None end.
+Definition gc_bucket (o : opts) (now : Z) (s : option bucket) : option bucket :=
+  match s with Some b => if lim_collect o now b then None else Some b | None => None end.
 
-Lemma lookup_gc k now t : nodup_keys t -> lim_lookup k (lim_gc now t) = gc_bucket now (lim_lookup k t).
+Lemma lookup_gc k o now t : nodup_keys t -> lim_lookup k (lim_gc o now t) = gc_bucket o now (lim_lookup k t).
 Proof.
   unfold lim_gc, nodup_keys. induction t as [|[k' b] t IH]; cbn; intros H; auto.
   inversion H; subst. cbn in *.
-  destruct (lim_expired now b) eqn:X; cbn.
+  destruct (lim_collect o now b) eqn:X; cbn.
   - destruct (addr_eqb k k') eqn:E.
     + apply addr_eqb_eq in E. subst k'. cbn. rewrite X.
       apply lookup_notin. intros Y. apply in_keys_filter in Y. contradiction.
@@ -116,7 +116,7 @@ Definition kstep (o : opts) (k : lim_addr) (s : option bucket) (e : lev) : optio
                    (match s with Some b => b | None => lim_fresh (o_burst o) now end) now n in
         (Some (snd r), Some (fst r))
       else (s, None)
-  | EvGc now => (gc_bucket now s, None)
+  | EvGc now => (gc_bucket o now s, None)
   end.
 
 Lemma step_nodup o t e : nodup_keys t -> nodup_keys (fst (lim_step o t e)).
@@ -303,11 +303,10 @@ Section Bound.
   (* one event, seen from key k *)
   Lemma kstep_cap s e tau :
     wf s tau -> tau <= ev_time e ->
-    (is_gc e = true -> burst <= 60 * rate) ->
     wf (fst (kstep o k s e)) (ev_time e) /\
     gain s e * SCALE + cap (fst (kstep o k s e)) (ev_time e) <= cap s tau + rate * (ev_time e - tau).
   Proof.
-    intros W T G. destruct e as [now a n|now]; unfold gain; cbn [kstep ev_time] in *.
+    intros W T. destruct e as [now a n|now]; unfold gain; cbn [kstep ev_time] in *.
     - destruct (addr_eqb (mask_addr o a) k) eqn:E; cbn [fst snd].
       + destruct s as [b|].
         * cbn in W. destruct W as (A & B & C).
@@ -325,16 +324,18 @@ Section Bound.
           cbn [cap]. destruct (fst (allow_bucket rate burst (lim_fresh burst now) now n)); lia.
       + split; [eapply wf_mono; eauto|].
         pose proof (cap_mono s tau now T). lia.
-    - cbn [fst snd]. specialize (G eq_refl).
+    - cbn [fst snd].
       destruct s as [b|]; cbn [gc_bucket].
-      + destruct (lim_expired now b) eqn:X.
-        * split; [exact I|]. cbn [cap]. unfold lim_expired, entry_ttl in X.
+      + destruct (lim_collect o now b) eqn:X.
+        * (* collected: the bucket is full at now, so nothing is lost *)
+          split; [exact I|]. cbn [cap].
+          unfold lim_collect, lim_full, lim_advance in X. fold rate burst in X.
           cbn in W. destruct W as (A & B & C).
+          assert (now <? b_last b = false) as E by lia. rewrite E in X.
           unfold capb.
-          assert (rate * (60 * SCALE + 1) <= rate * (tau - b_last b) + rate * (now - tau)).
-          { rewrite <- Z.mul_add_distr_l. apply Z.mul_le_mono_nonneg_l; lia. }
           assert (0 <= rate * (now - tau)) by (apply Z.mul_nonneg_nonneg; lia).
-          unfold SCALE in *. lia.
+          assert (rate * (now - b_last b) = rate * (tau - b_last b) + rate * (now - tau)) by lia.
+          lia.
         * split; [eapply wf_mono; eauto|].
           pose proof (cap_mono (Some b) tau now T). lia.
       + split; [exact I|]. cbn [cap].
@@ -357,15 +358,6 @@ Section Bound.
     assert ((t0 <=? now) && (now <=? t1) = false) as -> by lia. reflexivity.
   Qed.
 
-  Definition gc_side (h : list lev) : Prop := has_gc h = true -> burst <= 60 * rate.
-
-  Lemma gc_side_cons e h : gc_side (e :: h) -> (is_gc e = true -> burst <= 60 * rate) /\ gc_side h.
-  Proof.
-    unfold gc_side, has_gc. cbn [existsb]. intros H. split; intros X; apply H.
-    - destruct e; try discriminate. reflexivity.
-    - unfold has_gc in X. rewrite X. apply orb_true_r.
-  Qed.
-
   (* events after the window contribute nothing *)
   Lemma kadm_after h : forall s tau, lim_sorted_from tau h = true -> t1 < tau -> kadm o k t0 t1 s h = 0.
   Proof.
@@ -377,22 +369,21 @@ Section Bound.
 
   (* inside the window *)
   Lemma kadm_window h : forall s tau,
-    lim_sorted_from tau h = true -> t0 <= tau -> tau <= t1 -> wf s tau -> gc_side h ->
+    lim_sorted_from tau h = true -> t0 <= tau -> tau <= t1 -> wf s tau ->
     kadm o k t0 t1 s h * SCALE <= cap s tau + rate * (t1 - tau) + (rate - 1).
   Proof.
-    induction h as [|e h IH]; intros s tau S T0 T1 W G.
+    induction h as [|e h IH]; intros s tau S T0 T1 W.
     - cbn [kadm]. pose proof (cap_gt s tau W).
       assert (0 <= rate * (t1 - tau)) by (apply Z.mul_nonneg_nonneg; lia). lia.
     - pose proof S as S'. cbn in S. apply andb_true_iff in S. destruct S as [S1 S2].
-      apply gc_side_cons in G. destruct G as [G1 G2].
       destruct (Z_lt_le_dec t1 (ev_time e)) as [L|L].
       + rewrite (kadm_after (e :: h) s (ev_time e)); [| |exact L].
         * pose proof (cap_gt s tau W).
           assert (0 <= rate * (t1 - tau)) by (apply Z.mul_nonneg_nonneg; lia). lia.
         * cbn. rewrite S2. rewrite Z.leb_refl. reflexivity.
       + assert (tau <= ev_time e) as T by lia.
-        destruct (kstep_cap s e tau W T G1) as [W1 C1].
-        specialize (IH (fst (kstep o k s e)) (ev_time e) S2 ltac:(lia) L W1 G2).
+        destruct (kstep_cap s e tau W T) as [W1 C1].
+        specialize (IH (fst (kstep o k s e)) (ev_time e) S2 ltac:(lia) L W1).
         cbn [kadm].
         rewrite gainw_in by lia.
         assert (rate * (t1 - tau) = rate * (ev_time e - tau) + rate * (t1 - ev_time e)) by lia.
@@ -401,19 +392,18 @@ Section Bound.
 
   (* the whole history: events before the window only move the state *)
   Lemma kadm_bound h : forall s tau,
-    lim_sorted_from tau h = true -> wf s tau -> gc_side h -> t0 <= t1 ->
+    lim_sorted_from tau h = true -> wf s tau -> t0 <= t1 ->
     kadm o k t0 t1 s h * SCALE <= burst * SCALE + rate * (t1 - t0) + (rate - 1).
   Proof.
-    induction h as [|e h IH]; intros s tau S W G T01.
+    induction h as [|e h IH]; intros s tau S W T01.
     - cbn [kadm]. assert (0 <= rate * (t1 - t0)) by (apply Z.mul_nonneg_nonneg; lia).
       unfold SCALE. lia.
     - pose proof S as S'. cbn in S. apply andb_true_iff in S. destruct S as [S1 S2].
       assert (tau <= ev_time e) as T by lia.
       destruct (Z_lt_le_dec (ev_time e) t0) as [L|L].
       + (* before the window *)
-        pose proof G as G'. apply gc_side_cons in G'. destruct G' as [G1 G2].
-        destruct (kstep_cap s e tau W T G1) as [W1 _].
-        specialize (IH (fst (kstep o k s e)) (ev_time e) S2 W1 G2 T01).
+        destruct (kstep_cap s e tau W T) as [W1 _].
+        specialize (IH (fst (kstep o k s e)) (ev_time e) S2 W1 T01).
         cbn [kadm].
         rewrite gainw_out by lia.
         lia.
@@ -423,7 +413,7 @@ Section Bound.
           -- cbn. rewrite S2. rewrite Z.leb_refl. reflexivity.
         * assert (lim_sorted_from (ev_time e) (e :: h) = true) as S3.
           { cbn. rewrite S2. rewrite Z.leb_refl. reflexivity. }
-          pose proof (kadm_window (e :: h) s (ev_time e) S3 L L1 (wf_mono _ _ _ W T) G) as B.
+          pose proof (kadm_window (e :: h) s (ev_time e) S3 L L1 (wf_mono _ _ _ W T)) as B.
           pose proof (cap_le_burst s (ev_time e)).
           assert (rate * (t1 - ev_time e) <= rate * (t1 - t0)) by (apply Z.mul_le_mono_nonneg_l; lia).
           lia.
@@ -436,36 +426,19 @@ Proof.
   destruct h as [|e h]; cbn; auto. intros H. rewrite H, Z.leb_refl. reflexivity.
 Qed.
 
-(* C15 window bound, for histories from the empty table *)
+(* C15 window bound, for histories (arrivals and collector runs) from the empty table *)
 Lemma bound_general o k t0 t1 h :
-  0 < o_limit o -> 0 <= o_burst o -> lim_sorted h = true ->
-  (has_gc h = true -> o_burst o <= 60 * o_limit o) -> t0 <= t1 ->
+  0 < o_limit o -> 0 <= o_burst o -> lim_sorted h = true -> t0 <= t1 ->
   lim_granted o k t0 t1 h (lim_decisions o [] h) * SCALE
     <= o_burst o * SCALE + o_limit o * (t1 - t0) + (o_limit o - 1).
 Proof.
-  intros R B S G T.
+  intros R B S T.
   rewrite granted_kadm by apply nodup_nil. cbn [lim_lookup].
   destruct h as [|e h].
   - cbn. assert (0 <= o_limit o * (t1 - t0)) by (apply Z.mul_nonneg_nonneg; lia). unfold SCALE. lia.
   - apply (kadm_bound o k R B t0 t1 (e :: h) None (ev_time e)); auto.
     + apply (sorted_sorted_from (e :: h) S).
     + exact I.
-Qed.
-
-Lemma bound_nogc o k t0 t1 h :
-  0 < o_limit o -> 0 <= o_burst o -> lim_sorted h = true -> has_gc h = false -> t0 <= t1 ->
-  lim_granted o k t0 t1 h (lim_decisions o [] h) * SCALE
-    <= o_burst o * SCALE + o_limit o * (t1 - t0) + (o_limit o - 1).
-Proof.
-  intros R B S G T. apply bound_general; auto. rewrite G. discriminate.
-Qed.
-
-Lemma bound_gc o k t0 t1 h :
-  0 < o_limit o -> 0 <= o_burst o -> lim_sorted h = true -> o_burst o <= 60 * o_limit o -> t0 <= t1 ->
-  lim_granted o k t0 t1 h (lim_decisions o [] h) * SCALE
-    <= o_burst o * SCALE + o_limit o * (t1 - t0) + (o_limit o - 1).
-Proof.
-  intros R B S G T. apply bound_general; auto.
 Qed.
 
 (* ------------------------------------------------------------------ defaults and masking *)
@@ -574,8 +547,10 @@ Proof. intros H. destruct a; [reflexivity|reflexivity|contradiction]. Qed.
 
 (* ------------------------------------------------------------------ witnesses *)
 
-(* K3: burst 1000 > 60 * rate 1.  The client spends its burst at t = 0, the collector runs just after one
-   minute of silence and drops the entry, the client comes back and gets a second full burst. *)
+(* Former finding K3 (repaired): burst 1000 > 60 * rate 1.  The client spends its burst at t = 0 and comes back just
+   after one minute of silence.  The collector, running in between, used to drop the idle entry, and the client got
+   a second full burst; now the entry is kept (its bucket has refilled only 60 of 1000 tokens) and the second
+   arrival is refused, exactly as without the collector.  After 1000 s of silence the entry is full and is dropped. *)
 Definition k3_opts : opts := mkOpts 1 1000 24 48.
 Definition k3_client : lim_addr := LA4 3232235777%N.                       (* 192.168.1.1 *)
 Definition k3_t : Z := 60 * SCALE + 1.
@@ -584,11 +559,15 @@ Definition k3_history : list lev :=
 Definition k3_key : lim_addr := mask_addr k3_opts k3_client.
 
 Lemma k3_witness :
-  lim_sorted k3_history = true /\
-  lim_decisions k3_opts [] k3_history = [Some true; None; Some true] /\
-  bound_ok k3_opts k3_key 0 k3_t k3_history = false /\
-  lim_decisions k3_opts [] [EvAllow 0 k3_client 1000; EvAllow k3_t k3_client 1000] = [Some true; Some false].
-Proof. vm_compute. auto. Qed.
+  lim_sorted k3_history = true /\ has_gc k3_history = true /\
+  lim_decisions k3_opts [] k3_history = [Some true; None; Some false] /\
+  bound_ok k3_opts k3_key 0 k3_t k3_history = true /\
+  lim_decisions k3_opts [] [EvAllow 0 k3_client 1000; EvAllow k3_t k3_client 1000] = [Some true; Some false] /\
+  lim_lookup k3_key (lim_final k3_opts [] [EvAllow 0 k3_client 1000; EvGc k3_t]) <> None /\
+  lim_lookup k3_key (lim_final k3_opts [] [EvAllow 0 k3_client 1000; EvGc (1000 * SCALE)]) = None /\
+  lim_decisions k3_opts [] [EvAllow 0 k3_client 1000; EvGc (1000 * SCALE); EvAllow (1000 * SCALE) k3_client 1000]
+    = [Some true; None; Some true].
+Proof. vm_compute. repeat split; try reflexivity. discriminate. Qed.
 
 (* the one-nanosecond slack of the bound is attained: rate 3/s, burst 1; after 333 333 333 ns the bucket
    holds 0.999999999 token and x/time/rate grants (the wait would be 1/3 ns, truncated to 0) *)
@@ -769,11 +748,11 @@ Qed.
 
 (* the window bound for the limiter as configured *)
 Lemma config_bound c o k t0 t1 h : cfg_client c = Some o ->
-  lim_sorted h = true -> (has_gc h = true -> o_burst o <= 60 * o_limit o) -> t0 <= t1 ->
+  lim_sorted h = true -> t0 <= t1 ->
   lim_granted o k t0 t1 h (lim_decisions o [] h) * SCALE
     <= o_burst o * SCALE + o_limit o * (t1 - t0) + (o_limit o - 1).
 Proof.
-  intros C S G T. apply config_client_default in C. subst o.
+  intros C S T. apply config_client_default in C. subst o.
   pose proof (default_wf (cfg_opts c)) as W. cbn zeta in W.
   apply bound_general; auto; lia.
 Qed.
